@@ -129,20 +129,26 @@ PROPS["C08"] = {
 }
 
 PROPS["C01"] = {
-    "files": ["root/fakes.go", "root/c08_cache.go", "root/c01_routing.go"],
+    "files": ["root/fakes.go", "root/c08_cache.go", "root/c01_routing.go", "root/c01_meta.go", "region/fakes.go", "region/c11_info.go"],
+    "native_files": ["root/c01_meta_native.go"],
+    "native_cuts": [{"file": "rpc.go", "from": "func (c *client) SendRPC(", "to": "func (c *client) SendRPCOrig("}],
     "claim": "For every cache content of K non-overlapping regions (tables t / tt / n:t, arbitrary start/stop keys up to KL bytes, any "
              "discovery order, inserted through the real put) and every (table, key up to KEYL arbitrary bytes), getRegionFromCache "
              "returns the unique cached region whose [start, stop) contains the key and nil otherwise (so hbase:meta is consulted, never "
              "a neighbour or a same-prefixed table); every single-row request kind is then given that region, that region's client, and "
              "carries that region's name in its RegionSpecifier.",
     "outside": "more than K cached regions; keys longer than KEYL bytes (in particular the 32 KiB search-key truncation); the protobuf wire "
-               "encoding of the request structs (protobuf-go); the slow path through hbase:meta is covered structurally by meta_lookup only",
+               "encoding of the request structs (protobuf-go); the meta path is covered for one arbitrary meta row per lookup (meta_lookup)",
     "assumptions": ["cached regions do not overlap (C08 establishes that put preserves this)"],
     "jobs": [
         {"name": "route_from_cache", "pkg": "root", "entry": "VerifRouteFromCache", "reach": ["hit", "miss"],
          "params": {"quick": {"K": 2, "KL": 1, "T": 2, "KEYL": 2}, "thorough": {"K": 3, "KL": 1, "T": 3, "KEYL": 2}}},
         {"name": "addressing", "pkg": "root", "entry": "VerifAddressing", "reach": ["addressed"],
          "params": {"quick": {"KL": 2, "KEYL": 3}, "thorough": {"KL": 3, "KEYL": 4}}},
+        {"name": "meta_lookup", "pkg": "root", "entry": "VerifMetaLookup", "reach": ["accepted", "rejected", "not-found"],
+         "stubs": {"(*github.com/tsuna/gohbase.client).SendRPC": "github.com/tsuna/gohbase.vMetaSendRPC",
+                   "google.golang.org/protobuf/proto.Unmarshal": "github.com/tsuna/gohbase/region.vUnmarshal"},
+         "params": {"quick": {"T": 3, "KEYL": 2}, "thorough": {"T": 3, "KEYL": 3}}},
     ],
 }
 
